@@ -43,7 +43,7 @@ type Atom struct {
 // Has reports whether the atom's access path goes through obj.
 func (a *Atom) Has(obj types.Object) bool {
 	for _, e := range a.Path {
-		if e.Obj == obj && obj != nil {
+		if sameObj(e.Obj, obj) {
 			return true
 		}
 	}
@@ -76,7 +76,7 @@ type Effect struct {
 // RecvHas reports whether the receiver/LHS path goes through obj.
 func (e *Effect) RecvHas(obj types.Object) bool {
 	for _, p := range e.Recv {
-		if p.Obj == obj && obj != nil {
+		if sameObj(p.Obj, obj) {
 			return true
 		}
 	}
@@ -103,6 +103,9 @@ type Val struct {
 	atom  *atomRef // lazily valued integer/boolean leaf
 	Type  types.Type
 	Const bool
+	Gen   int // generation at first evaluation (symbolic values)
+
+	genSet bool
 }
 
 const (
@@ -211,7 +214,7 @@ func (v *Val) HasObj(obj types.Object) bool {
 		p = v.atom.path
 	}
 	for _, e := range p {
-		if e.Obj == obj && obj != nil {
+		if sameObj(e.Obj, obj) {
 			return true
 		}
 	}
@@ -978,8 +981,20 @@ func (in *interp) evalBool(e ast.Expr) bool {
 }
 
 // evalNoForce evaluates e to an abstract value, choosing values only where a
-// comparison or arithmetic needs them.
+// comparison or arithmetic needs them. Symbolic values are stamped with the
+// generation (number of preceding state-changing effects) at which they were
+// first evaluated, so that a read before an effect can be told from one after it.
 func (in *interp) evalNoForce(e ast.Expr) *Val {
+	g := in.gen
+	v := in.evalInner(e)
+	if v != nil && v != pendingSentinel && !v.genSet {
+		v.Gen = g
+		v.genSet = true
+	}
+	return v
+}
+
+func (in *interp) evalInner(e ast.Expr) *Val {
 	info := in.fr().info
 	e = ast.Unparen(e)
 	if tv, ok := info.Types[e]; ok && tv.Value != nil {
